@@ -280,3 +280,15 @@ KERNELS = {
     "wthh_id_numpy": wthh_contract(),
     "sum_by_p_id": sum_by_p_id_contract(),
 }
+
+
+# state variables each contract refers to, in the order the code initialises them, with their kind;
+# used to re-bind the contract by role when the code renames a local (vt/kernels.py)
+STATE_VARS = {
+    "eg_id_numpy": [("p_id_to_eg_id", "dict"), ("next_eg_id", "int"), ("result", "list")],
+    "ehe_id_numpy": [("p_id_to_ehe_id", "dict"), ("next_ehe_id", "int"), ("result", "list")],
+    "sn_id_numpy": [("p_id_to_sn_id", "dict"), ("p_id_to_gemeinsam_veranlagt", "dict"), ("next_sn_id", "int"), ("result", "list")],
+    "bg_id_numpy": [("counter", "counter"), ("result", "list")],
+    "wthh_id_numpy": [("result", "list")],
+    "sum_by_p_id": [("out", "arr"), ("map_p_id_to_position", "dict")],
+}
